@@ -145,11 +145,12 @@ theorem C06_reject_unchanged (H : I → Chk) (d : ANode I) (f : AFile I) (hinc :
 /-- engine model (byte level): the stream path refuses such a file and changes nothing but the
     lock table it passed through -/
 theorem C06_reject_unchanged_engine (s : Eng) (self : Nat) (f : LTXFile) (hdb : s.hasDB = true)
+    (hnh : s.remoteHalt = false)   -- a node holding a stale remote halt lock first recovers (rollback / checkpoint)
     (hinc : f.minTxid ≠ 1) (hbad : f.minTxid ≠ s.posTxid + 1 ∨ f.pre ≠ s.posChk) :
     let r := (Cluster.deliver s self f).1
     r.dbFile = s.dbFile ∧ r.wal = s.wal ∧ r.journal = s.journal ∧ r.posTxid = s.posTxid ∧ r.posChk = s.posChk ∧
     r.ltx = s.ltx ∧ r.pageN = s.pageN ∧ r.exit = s.exit := by
-  simp only [Cluster.deliver, hdb, if_true]
+  simp only [Cluster.deliver, hdb, hnh, if_true, Bool.false_eq_true, if_false]
   split
   · exact ⟨rfl, rfl, rfl, rfl, rfl, rfl, rfl, rfl⟩
   · unfold receiveLTX
